@@ -27,7 +27,14 @@ numbering independence.
 -/
 import DSymVerif.Proofs.Delaney3d
 import DSymVerif.Proofs.Delaney3dOrders
+import DSymVerif.Proofs.Delaney3dSelect
+import DSymVerif.Proofs.Delaney3dOriented
+import DSymVerif.Proofs.Delaney3dHolonomy
 import DSymVerif.Props.C05
+import DSymVerif.Props.C09
+import DSymVerif.Props.C11
+import DSymVerif.Props.C13
+import DSymVerif.Props.C14
 import DSymVerif.Spec.C15
 
 namespace DSymVerif.C15
@@ -85,7 +92,7 @@ theorem coreTypeBySize_ne_err (n : Nat) : coreTypeBySize n ≠ .err := by
   split <;> simp
 
 /-- for ALL tables: a name returned by the model of `core_type` is a point-group name -/
-theorem coreType_in_pointGroups (ct : Table) (name : String) (h : coreType ct = .ok name) :
+theorem coreType_in_pointGroups (n : Nat) (ct : Tab) (name : String) (h : coreType n ct = .ok name) :
     name ∈ pointGroups := by
   unfold coreType at h
   split at h
@@ -95,7 +102,7 @@ theorem coreType_in_pointGroups (ct : Table) (name : String) (h : coreType ct = 
     · cases h
     · cases h
   · unfold coreTypeBySize at h
-    cases hf : Tables.coreTypeBySize.find? (fun p => p.1 == ct.len) with
+    cases hf : Tables.coreTypeBySize.find? (fun p => p.1 == ct.size) with
     | none => rw [hf] at h; cases h
     | some p =>
       rw [hf] at h
@@ -104,8 +111,8 @@ theorem coreType_in_pointGroups (ct : Table) (name : String) (h : coreType ct = 
 
 /-- for ALL tables: the model of `core_type` panics only if the number of rows is none of
     1, 2, 3, 4, 6, 8, 12, 24 or a table access inside `is_fully_involutive` panics -/
-theorem coreType_panics_only (ct : Table) (h : coreType ct = .panic) :
-    ct.len ∉ [1, 2, 3, 4, 6, 8, 12, 24] ∨ isFullyInvolutive ct = .panic := by
+theorem coreType_panics_only (n : Nat) (ct : Tab) (h : coreType n ct = .panic) :
+    ct.size ∉ [1, 2, 3, 4, 6, 8, 12, 24] ∨ isFullyInvolutive n ct = .panic := by
   unfold coreType at h
   split at h
   · right
@@ -116,7 +123,7 @@ theorem coreType_panics_only (ct : Table) (h : coreType ct = .panic) :
     · rename_i hp; exact hp
   · left
     rename_i hne
-    have hp := (coreTypeBySize_panics_iff ct.len).mp h
+    have hp := (coreTypeBySize_panics_iff ct.size).mp h
     rw [coreTypeBySize_domain.2.1] at hne
     simp only [List.mem_cons, List.mem_nil_iff, or_false, not_or] at hp ⊢
     omega
@@ -165,21 +172,8 @@ example : MulAction.IsPretransitive (⊤ : Subgroup (Equiv.Perm (Fin 4))) (Fin 4
 theorem degree_spec (get : Nat → Int → Outcome (Option Nat)) (n : Nat) (w : List Int)
     (hn : 0 < n) (h : ActsOn get n w) :
     ∃ k, degreeOf get n w = .ok k ∧ 1 ≤ k ∧ k ≤ n ∧ iterTrace get w k 0 = .ok 0 ∧
-      ∀ j, 1 ≤ j → j < k → iterTrace get w j 0 ≠ .ok 0 := by
-  classical
-  have hex : ∃ t, 1 ≤ t ∧ iterTrace get w t 0 = .ok 0 := by
-    obtain ⟨t, h1, _, h3⟩ := iterTrace_returns h hn
-    exact ⟨t, h1, h3⟩
-  obtain ⟨t, ht1, htn, ht⟩ := iterTrace_returns h hn
-  refine ⟨Nat.find hex, ?_, (Nat.find_spec hex).1, ?_, (Nat.find_spec hex).2, ?_⟩
-  · unfold degreeOf
-    exact degreeLoop_spec h hn (Nat.find hex) (Nat.find_spec hex).2
-      (fun j hj1 hjk hj => Nat.find_min hex hjk ⟨hj1, hj⟩) n 0 0
-      (by have := (Nat.find_spec hex).1; omega)
-      (by have := Nat.find_min' hex ⟨ht1, ht⟩; omega) rfl
-  · have := Nat.find_min' hex ⟨ht1, ht⟩; omega
-  · intro j hj1 hjk hj
-    exact Nat.find_min hex hjk ⟨hj1, hj⟩
+      ∀ j, 1 ≤ j → j < k → iterTrace get w j 0 ≠ .ok 0 :=
+  degreeOf_spec get n w hn h
 
 /-- a decidable form of the hypothesis -/
 def actsOnB (get : Nat → Int → Outcome (Option Nat)) (n : Nat) (w : List Int) : Bool :=
@@ -217,25 +211,25 @@ theorem actsOnB_sound (get : Nat → Int → Outcome (Option Nat)) (n : Nat) (w 
     · exact hd.symm
     · exact absurd h2 hd
 
-/-- the cyclic table of Z/3 on one generator: rows 0 → 1 → 2 → 0 -/
-def z3Table : Table := Table.ofView 1 #[#[1, 2], #[2, 0], #[0, 1]]
+/-- the cyclic table of Z/3 on one generator, as a public view: rows 0 → 1 → 2 → 0 -/
+def z3Table : Tab := #[#[1, 2], #[2, 0], #[0, 1]]
 
-/-- non-vacuity of `degree_spec` on a concrete `CosetTable` value: the hypothesis holds and the
-    degree of the generator is 3, of its square 3, of its cube 1 -/
-example : ActsOn z3Table.get z3Table.len [1] ∧ degree z3Table [1] = .ok 3 ∧
-    degree z3Table [1, 1] = .ok 3 ∧ degree z3Table [1, 1, 1] = .ok 1 :=
+/-- non-vacuity of `degree_spec` on a concrete table: the hypothesis holds and the degree of the
+    generator is 3, of its square 3, of its cube 1 -/
+example : ActsOn (tbl 1 z3Table).get z3Table.size [1] ∧ degree 1 z3Table [1] = .ok 3 ∧
+    degree 1 z3Table [1, 1] = .ok 3 ∧ degree 1 z3Table [1, 1, 1] = .ok 1 :=
   ⟨actsOnB_sound _ _ _ (by decide +kernel), by decide +kernel, by decide +kernel, by decide +kernel⟩
 
 /-- `flattens_all` answers `true` exactly when every cone word has the stated degree, provided
     the degrees are computed (no panic): the short-circuit `all` -/
-theorem flattensAll_true_iff (ct : Table) (cones : List (List Int × Nat)) :
-    flattensAll ct cones = .ok true ↔ ∀ c ∈ cones, degree ct c.1 = .ok c.2 := by
+theorem flattensAll_true_iff (n : Nat) (ct : Tab) (cones : List (List Int × Nat)) :
+    flattensAll n ct cones = .ok true ↔ ∀ c ∈ cones, degree n ct c.1 = .ok c.2 := by
   induction cones with
   | nil => simp [flattensAll]
   | cons c rest ih =>
     obtain ⟨wd, deg⟩ := c
     unfold flattensAll
-    cases hd : degree ct wd with
+    cases hd : degree n ct wd with
     | ok k =>
       by_cases hk : k = deg
       · subst hk
@@ -246,129 +240,348 @@ theorem flattensAll_true_iff (ct : Table) (cones : List (List Int × Nat)) :
     | err => simp [hd]
     | panic => simp [hd]
 
-example : flattensAll z3Table [([1], 3), ([1, 1, 1], 1)] = .ok true := by decide +kernel
+example : flattensAll 1 z3Table [([1], 3), ([1, 1, 1], 1)] = .ok true := by decide +kernel
 
-/-! ### 4. what a returned pseudo-toroidal cover is -/
+/-! ### 4. the tables of the pipeline are valid permutation representations
 
-theorem firstTorusTable_some (rels : List (List Int)) :
-    ∀ (ts : List Table) (t : Table), firstTorusTable rels ts = .ok (some t) →
-      t ∈ ts ∧ stabilizerInvariants rels t = .ok [0, 0, 0]
-  | [], t, h => by simp [firstTorusTable] at h
-  | x :: rest, t, h => by
-    unfold firstTorusTable at h
-    split at h
-    · rename_i inv hinv
-      split at h
-      · rename_i h0
-        cases h
-        exact ⟨List.mem_cons_self .., by rw [hinv, h0]⟩
-      · obtain ⟨hm, hs⟩ := firstTorusTable_some rels rest t h
-        exact ⟨List.mem_cons_of_mem _ hm, hs⟩
-    · cases h
-    · cases h
+`GroupOK fg` (Proofs/Delaney3dPipeline.lean) collects what is assumed of the presentation handed
+to `construct_candidates`: relators and cone words over the letters `±1..±n`, and the node budget
+of the model of `coset_tables` exhausting the search tree (hypothesis of C12's theorems).  The
+first two are decidable and evaluated by the driver on every explored case; they are not proved
+for the output of `fundamental_group`. -/
 
-theorem groupLoop_some (rels : List (List Int)) (cands : Candidates) :
-    ∀ (names : List String) (t : Table), groupLoop rels cands names = .ok (some t) →
-      ∃ name ts, name ∈ names ∧ candGet cands name = .ok ts ∧ t ∈ ts ∧
-        stabilizerInvariants rels t = .ok [0, 0, 0]
-  | [], t, h => by simp [groupLoop] at h
-  | tp :: rest, t, h => by
-    unfold groupLoop at h
-    split at h
-    · rename_i ts hts
-      split at h
-      · rename_i t' ht'
-        cases h
-        obtain ⟨hm, hs⟩ := firstTorusTable_some rels ts t ht'
-        exact ⟨tp, ts, List.mem_cons_self .., hts, hm, hs⟩
-      · obtain ⟨name, ts', hn, hc, hm, hs⟩ := groupLoop_some rels cands rest t h
-        exact ⟨name, ts', List.mem_cons_of_mem _ hn, hc, hm, hs⟩
-      · cases h
-      · cases h
-    · cases h
-    · cases h
+/-- the decidable part of `GroupOK`, as the driver evaluates it on every explored case
+    (`SpecC15.groupOkB`), is sound -/
+theorem groupOkB_sound (n : Nat) (relators : List (List Int)) (cones : List (List Int × Nat))
+    (h : SpecC15.groupOkB n relators cones = true) :
+    (∀ w ∈ relators, ∀ x ∈ w, x ∈ Cosets.allGensOf n) ∧
+    (∀ c ∈ cones, ∀ x ∈ c.1, x ∈ Cosets.allGensOf n) := by
+  unfold SpecC15.groupOkB at h
+  simp only [Bool.and_eq_true, List.all_eq_true] at h
+  have hlet : ∀ x : Int, SpecC15.letterInRange n x = true → x ∈ Cosets.allGensOf n := by
+    intro x hx
+    unfold SpecC15.letterInRange at hx
+    simp only [Bool.or_eq_true, Bool.and_eq_true, decide_eq_true_eq] at hx
+    rw [LowIndexP.mem_allGensOf]
+    exact hx
+  exact ⟨fun w hw x hx => hlet x (h.1 w hw x hx), fun c hc x hx => hlet x (h.2 c hc x hx)⟩
 
-/-- **ptc_result_is_cover_partial.**  For ALL symbols: if the model of `pseudo_toroidal_cover`
-    returns `Some(c)` then the input is 3-dimensional and complete, and `c` is
-    `cover_for_table(oc, t, edge_to_word)` where `oc` is the oriented cover of the input, the
-    edge words are those of `fundamental_group(oc)`, and `t` is a candidate table filed under
-    one of the point-group names whose stabiliser (model of `stabilizer` + `abelian_invariants`)
-    has invariants `[0, 0, 0]`.
-    With the hypotheses of C05's `cover_for_table_compat` on `oc`, the table and the edge words
-    (inverse-consistent table, edge words mutually inverse or mirror involutions in the table — evaluated per explored input by the
-    covering clauses of the Spec, not proved for the enumerators), `c` is a covering of `oc` with
-    `t.len()` sheets: size, dimension, valid tables, projection commuting with every operation. -/
-theorem ptc_result_is_cover_partial (s c : DSymData) (h : pseudoToroidalCover s = .ok (some c)) :
-    s.dim = 3 ∧ s.isCompletePartial = true ∧
-    ∃ oc fg cands t name ts,
+/-- **candidates_valid.**  Every table `construct_candidates` files under any point-group name —
+    core tables of the tables of index ≤ 4 (C12 `extract_valid`, C13 `core_spec`) and
+    intersections of two of them (C13 `intersection_spec`) — passes `validTable relators []`:
+    complete, inverse-consistent, every relator closing at every row, transitive.  By C11's
+    `validTable_action` it is a transitive permutation representation of ⟨1..n | relators⟩. -/
+theorem candidates_valid (fg : FG.FundGroup) (hg : GroupOK fg) (cands : Candidates)
+    (h : constructCandidates fg = .ok cands) :
+    ∀ e ∈ cands, ∀ t ∈ e.2, SpecC11.validTable t fg.genToEdge.length fg.relators [] = true :=
+  constructCandidates_valid fg hg cands h
+
+/-- **degree_on_valid_tables.**  On every valid table — in particular on every core table,
+    intersection table and candidate of the pipeline — and every word over the letters, `degree`
+    returns (the iterator chain terminates, no `unwrap` fires) the least `k ≥ 1` with
+    `0·w^k = 0`: the hypothesis of `degree_spec` holds.  Hence `flattens_all` returns as well. -/
+theorem degree_on_valid_tables (n : Nat) (rels : List (List Int)) (t : Tab)
+    (hv : SpecC11.validTable t n rels [] = true) :
+    (∀ w : List Int, (∀ g ∈ w, g ∈ SpecC11.letters n) →
+      ActsOn (tbl n t).get t.size w ∧
+      ∃ k, degree n t w = .ok k ∧ 1 ≤ k ∧ k ≤ t.size ∧ iterTrace (tbl n t).get w k 0 = .ok 0 ∧
+        ∀ j, 1 ≤ j → j < k → iterTrace (tbl n t).get w j 0 ≠ .ok 0) ∧
+    (∀ cones : List (List Int × Nat), (∀ x ∈ cones, ∀ g ∈ x.1, g ∈ SpecC11.letters n) →
+      ∃ b, flattensAll n t cones = .ok b) := by
+  have hV := CosetP.valid_of_validTable hv
+  exact ⟨fun w hw => ⟨actsOn_of_valid hV w hw, degree_valid hV w hw⟩, fun cones hc => flattensAll_ok hV cones hc⟩
+
+/-- **core_type_total.**  The `panic!()` arm of `core_type_by_size` is unreachable in
+    `construct_candidates`: every core table of the run is the core of a valid table with
+    `k ≤ 4` rows; its rows are the elements of the permutation group the action generates on the
+    `k` rows (C13 `core_spec`), a transitive subgroup of `S_k`, so their number is one of
+    1, 2, 3, 4, 6, 8, 12, 24 (`transitive_le4_orders`), and `core_type` returns one of the eleven
+    point-group names. -/
+theorem core_type_total (fg : FG.FundGroup) (hg : GroupOK fg) (cts : List Tab)
+    (h : coreTables fg.genToEdge.length
+      (Cosets.cosetTables fg.genToEdge.length fg.relators Tables.candidateIndexBound nodeFuel) = .ok cts) :
+    ∀ c ∈ cts, c.size ∈ [1, 2, 3, 4, 6, 8, 12, 24] ∧
+      ∃ name, coreType fg.genToEdge.length c = .ok name ∧ name ∈ pointGroups := by
+  intro c hc
+  have hcore := constructCandidates_cores fg hg cts h c hc
+  rw [coreTypeBySize_domain.2.2.2] at hcore
+  obtain ⟨hsize, name, hname⟩ :=
+    coreType_of_core hg.letters hcore coreTypeBySize_domain.1 coreTypeBySize_domain.2.1
+  exact ⟨hsize, name, hname, coreType_in_pointGroups _ c name hname⟩
+
+/-! ### 5. a returned pseudo-toroidal cover is a covering -/
+
+/-- **ptc_result_is_cover.**  For every input with valid tables: whenever the model of
+    `pseudo_toroidal_cover` returns `Some(cov)` (and the presentation of the oriented cover is
+    `GroupOK`), then with `oc` the oriented cover of the input (itself oriented, 3-dimensional,
+    1 or 2 sheets) and `t` the selected candidate table — a valid table of the group —
+    `cov = cover_for_table(oc, t, edge_to_word)` has `rows(t) · |oc|` chambers, dimension 3 and
+    valid tables (in particular it is complete and every operation is an involution), the
+    projection `d ↦ (d−1) mod |oc| + 1` onto the oriented cover commutes with every operation,
+    and so does the composite projection `d ↦ (d−1) mod |input| + 1` onto the input.
+    The hypotheses of C05's `cover_for_table_compat` are discharged: the candidate table is
+    inverse-consistent (§4), and the two sides of every facet of `oc` carry mutually inverse edge
+    words (C09 `edge_words_inverse`; `oc` has no mirrors: C05 `oriented_cover_oriented`). -/
+theorem ptc_result_is_cover (s cov : DSymData) (hs : ValidTables s) (hsz : 1 ≤ s.size)
+    (hG : ∀ oc fg, orientedCover s = .ok oc → FG.fundamentalGroup oc = .ok fg → GroupOK fg)
+    (h : pseudoToroidalCover s = .ok (some cov)) :
+    ∃ (oc : DSymData) (fg : FG.FundGroup) (t : Tab),
+      orientedCover s = .ok oc ∧ ValidTables oc ∧ oc.view.isOriented = true ∧ oc.dim = 3 ∧
+      oc.size = (if s.view.isOriented then 1 else 2) * s.size ∧
+      FG.fundamentalGroup oc = .ok fg ∧
+      SpecC11.validTable t fg.genToEdge.length fg.relators [] = true ∧
+      stabilizerInvariants fg.genToEdge.length fg.relators t = .ok [0, 0, 0] ∧
+      Covers.coverForTable oc (tableData (tbl fg.genToEdge.length t)) fg.edgeToWord = .ok cov ∧
+      cov.size = t.size * oc.size ∧ cov.dim = 3 ∧ ValidTables cov ∧
+      (∀ i d, i ≤ 3 → 1 ≤ d → d ≤ cov.size →
+        cproj oc.size (cov.dset.opU i d) = oc.dset.opU i (cproj oc.size d)) ∧
+      (∀ i d, i ≤ 3 → 1 ≤ d → d ≤ cov.size →
+        cproj s.size (cov.dset.opU i d) = s.dset.opU i (cproj s.size d)) := by
+  obtain ⟨⟨oc, fg, cands, t, name, ts, dim3, _, hoc, hfg, hcands, _, hget, hmem, hinv, hcov⟩⟩ := ptc_run s cov h
+  have hdim : 1 ≤ s.dim := by rw [dim3]; decide
+  obtain ⟨oc', hoc', hori, hocdim, hocsize⟩ := C05.oriented_cover_oriented s hs hsz hdim
+  have hoceq : oc = oc' := by
+    have := hoc
+    rw [hoc'] at this
+    exact (Outcome.ok.inj this).symm
+  subst hoceq
+  -- valid tables of the oriented cover, and its projection onto the input
+  have hboth : ValidTables oc ∧ ∀ i e, i ≤ s.dim → 1 ≤ e → e ≤ oc.size →
+      cproj s.size (oc.dset.opU i e) = s.dset.opU i (cproj s.size e) := by
+    obtain ⟨_, h1, h2⟩ := C05.oriented_cover_covering s hs hsz hdim
+    cases ho : s.view.isOriented with
+    | true =>
+      have := h1 ho
+      rw [hoc] at this
+      have he : oc = s := Outcome.ok.inj this
+      subst he
+      refine ⟨hs, ?_⟩
+      intro i e hi he1 he2
+      have hr := hs.set.range i e hi he1 he2
+      have hsd : oc.size = oc.dset.size := rfl
+      rw [← hsd] at hr
+      have hc1 : cproj oc.size e = e := by
+        unfold cproj; rw [Nat.mod_eq_of_lt (by omega)]; omega
+      have hc2 : cproj oc.size (oc.dset.opU i e) = oc.dset.opU i e := by
+        unfold cproj; rw [Nat.mod_eq_of_lt (by omega)]; omega
+      rw [hc1, hc2]
+    | false =>
+      obtain ⟨_, c, hc, hcs, _, hcv, hproj⟩ := h2 ho
+      rw [hoc] at hc
+      have he : oc = c := Outcome.ok.inj hc
+      subst he
+      exact ⟨hcv, fun i e hi he1 he2 => hproj i e hi he1 (by omega)⟩
+  obtain ⟨hvoc, hprojoc⟩ := hboth
+  have hG' := hG oc fg hoc hfg
+  -- the selected table is valid
+  obtain ⟨e, he, hets⟩ := candGet_mem hget
+  have hvt : SpecC11.validTable t fg.genToEdge.length fg.relators [] = true :=
+    constructCandidates_valid fg hG' cands hcands e he t (by rw [hets]; exact hmem)
+  have hV := CosetP.valid_of_validTable hvt
+  have hocsz : 1 ≤ oc.size := by
+    rw [hocsize]; split <;> omega
+  have hocd : 1 ≤ oc.dim := by rw [hocdim]; exact hdim
+  have hdef : Covers.allTracesDefined oc (tableData (tbl fg.genToEdge.length t)) fg.edgeToWord = true := by
+    have hc := hcov
+    unfold Covers.coverForTable at hc
+    split at hc
+    · assumption
+    · cases hc
+  obtain ⟨_, c'', hc'', h1, h2, h3, h4⟩ :=
+    C05.cover_for_table_compat oc hvoc hocsz hocd (tableData (tbl fg.genToEdge.length t))
+      (by rw [tableData_len]; exact hV.pos) fg.edgeToWord (tableData_invConsistent hV)
+      (edgeWordsOk_of_oriented hvoc hori hfg _) hdef
+  rw [hcov] at hc''
+  have hce : cov = c'' := Outcome.ok.inj hc''
+  subst hce
+  rw [tableData_len] at h1 h4
+  have hd3 : oc.dim = 3 := by rw [hocdim, dim3]
+  refine ⟨oc, fg, t, hoc, hvoc, hori, hd3, hocsize, hfg, hvt, hinv, hcov, h1,
+    by rw [h2, hd3], h3, ?_, ?_⟩
+  · intro i d hi hd1 hd2
+    exact h4 i d (by rw [hd3]; exact hi) hd1 (by rw [← h1]; exact hd2)
+  · intro i d hi hd1 hd2
+    have hA := h4 i d (by rw [hd3]; exact hi) hd1 (by rw [← h1]; exact hd2)
+    have hr := cproj_range (d := d) hocsz
+    have hB := hprojoc i (cproj oc.size d) (by rw [dim3]; exact hi) hr.1 hr.2
+    have hk : 0 < (if s.view.isOriented then 1 else 2) := by split <;> omega
+    rw [← cproj_cproj s.size (cov.dset.opU i d) _ hk, ← hocsize, hA, hB, hocsize, cproj_cproj s.size d _ hk]
+
+/-- **ptc_result_is_oriented.**  A returned cover is oriented: no operation fixes a chamber (a loop
+    would project to a loop of the oriented cover) and it is weakly oriented (the proper
+    2-colouring of the oriented cover pulls back along the projection). -/
+theorem ptc_result_is_oriented (s cov : DSymData) (hs : ValidTables s) (hsz : 1 ≤ s.size)
+    (hG : ∀ oc fg, orientedCover s = .ok oc → FG.fundamentalGroup oc = .ok fg → GroupOK fg)
+    (h : pseudoToroidalCover s = .ok (some cov)) : cov.view.isOriented = true := by
+  obtain ⟨oc, _, _, _, hvoc, hori, hd3, hocsize, _, _, _, _, _, hcd, hvc, hproj, _⟩ :=
+    ptc_result_is_cover s cov hs hsz hG h
+  have hocsz : 1 ≤ oc.size := by rw [hocsize]; split <;> omega
+  exact cover_of_oriented_is_oriented hvoc hvc hori hocsz (by rw [hcd, hd3])
+    (fun i d hi h1 h2 => hproj i d (by rw [← hd3]; exact hi) h1 h2)
+
+/-! ### 6. the selected subgroup abelianises to Z³ -/
+
+/-- **ptc_selected_subgroup_is_Z3_abelianised.**  Whenever the model returns `Some(cov)`, the
+    selection test has established the following about the group `G = ⟨1..n | relators⟩` that
+    `fundamental_group` returned for the oriented cover (the orbifold group of `oc`: C09
+    `presents_orbifold_group`, there written over ℕ-indexed generators — that re-indexing is not
+    formalised here): `G` acts transitively on the rows of the selected valid table `t`; the
+    stabiliser `K` of row 0 has index `rows(t)` (the sheet number of `cov` over `oc`); the model of
+    `stabilizer` returned a presentation `⟨gens | srels⟩` with an **injective** homomorphism onto
+    `K` (C13 `stabilizer_presentation_iso`: `⟨gens | srels⟩ ≅ K`); and the model of
+    `abelian_invariants` of that presentation is `[0, 0, 0]` — which, on runs without `isize`
+    overflow, is the determinantal-divisor definition of C14 (`abelian_invariants_eq_spec`): the
+    relation matrix of the presentation of `K` has `gens − 3` invariant factors, all equal to 1,
+    i.e. `K` abelianises to Z³.  (That `π₁(cov) ≅ K`, the covering-space correspondence, is not
+    proved; the Spec computes H₁ of `cov` from its own textbook presentation on every case.) -/
+theorem ptc_selected_subgroup_is_Z3_abelianised (s cov : DSymData) (hs : ValidTables s) (hsz : 1 ≤ s.size)
+    (hG : ∀ oc fg, orientedCover s = .ok oc → FG.fundamentalGroup oc = .ok fg → GroupOK fg)
+    (h : pseudoToroidalCover s = .ok (some cov)) :
+    ∃ (oc : DSymData) (fg : FG.FundGroup) (t : Tab)
+      (hv : SpecC11.validTable t fg.genToEdge.length fg.relators [] = true)
+      (gens srels : List (List Int)),
       orientedCover s = .ok oc ∧ FG.fundamentalGroup oc = .ok fg ∧
-      constructCandidates fg = .ok cands ∧ name ∈ pointGroups ∧ candGet cands name = .ok ts ∧ t ∈ ts ∧
-      stabilizerInvariants fg.relators t = .ok [0, 0, 0] ∧
-      Covers.coverForTable oc (tableData t) fg.edgeToWord = .ok c ∧
-      (ValidTables oc → 1 ≤ oc.size → 1 ≤ oc.dim → 1 ≤ (tableData t).len →
-        (tableData t).InvConsistent → Covers.EdgeWordsOk oc (tableData t) fg.edgeToWord →
-        c.size = (tableData t).len * oc.size ∧ c.dim = oc.dim ∧ ValidTables c ∧
-        ∀ i d, i ≤ oc.dim → 1 ≤ d → d ≤ (tableData t).len * oc.size →
-          cproj oc.size (c.dset.opU i d) = oc.dset.opU i (cproj oc.size d)) := by
-  unfold pseudoToroidalCover at h
-  split at h
-  · cases h
-  · rename_i hdim
-    split at h
-    · cases h
-    · rename_i hcomp
-      refine ⟨Decidable.not_not.mp hdim, by simpa using hcomp, ?_⟩
-      split at h
-      · split at h
-        · rename_i oc hoc
-          split at h
-          · rename_i fg hfg
-            split at h
-            · rename_i cands hcands
-              split at h
-              · rename_i t ht
-                split at h
-                · rename_i c' hc'
-                  cases h
-                  obtain ⟨name, ts, hn, hget, hm, hs⟩ := groupLoop_some fg.relators cands pointGroups t ht
-                  refine ⟨oc, fg, cands, t, name, ts, hoc, hfg, hcands, hn, hget, hm, hs, hc', ?_⟩
-                  intro hv hsz hd hlen hinv hedge
-                  have hdef : Covers.allTracesDefined oc (tableData t) fg.edgeToWord = true := by
-                    unfold Covers.coverForTable at hc'
-                    split at hc'
-                    · assumption
-                    · cases hc'
-                  obtain ⟨_, c'', hc'', h1, h2, h3, h4⟩ :=
-                    C05.cover_for_table_compat oc hv hsz hd (tableData t) hlen fg.edgeToWord hinv hedge hdef
-                  rw [hc'] at hc''
-                  cases hc''
-                  exact ⟨h1, h2, h3, h4⟩
-                · cases h
-                · cases h
-              · cases h
-              · cases h
-              · cases h
-            · cases h
-            · cases h
-          · cases h
-          · cases h
-        · cases h
-        · cases h
-      · cases h
-      · cases h
+      Covers.coverForTable oc (tableData (tbl fg.genToEdge.length t)) fg.edgeToWord = .ok cov ∧
+      cov.size = t.size * oc.size ∧
+      Stab.stabilizer 0 fg.relators (Cosets.Table.ofView fg.genToEdge.length t) = .ok (gens, srels) ∧
+      Inv.abelianInvariants gens.length srels = .ok [0, 0, 0] ∧
+      ((MulAction.stabilizer (Equiv.Perm (Fin t.size))
+          (⟨0, (CosetP.valid_of_validTable hv).pos⟩ : Fin t.size)).comap
+        (CosetP.actionHom (CosetP.valid_of_validTable hv))).index = t.size ∧
+      (∃ f : PresentedGroup (CosetP.relSet gens.length srels) →*
+            PresentedGroup (CosetP.relSet fg.genToEdge.length fg.relators),
+        Function.Injective f ∧
+        f.range = (MulAction.stabilizer (Equiv.Perm (Fin t.size))
+            (⟨0, (CosetP.valid_of_validTable hv).pos⟩ : Fin t.size)).comap
+          (CosetP.actionHom (CosetP.valid_of_validTable hv))) ∧
+      ((∀ w ∈ srels, ∀ g ∈ w, Inv.InRange gens.length g) →
+        ((Inv.abelianInvariantsB gens.length srels).2 : Int) < Inv.isizeMax →
+        SpecC14.expected gens.length srels = [0, 0, 0]) := by
+  obtain ⟨oc, fg, t, hoc, _, _, _, _, hfg, hvt, hinv, hcov, hsize, _⟩ := ptc_result_is_cover s cov hs hsz hG h
+  have hV := CosetP.valid_of_validTable hvt
+  unfold stabilizerInvariants at hinv
+  split at hinv
+  · rename_i gens srels hst
+    refine ⟨oc, fg, t, hvt, gens, srels, hoc, hfg, hcov, hsize, hst, hinv, CosetP.index_stab0 hV, ?_, ?_⟩
+    · obtain ⟨f, _, hrange, hinj⟩ :=
+        C13.stabilizer_presentation_iso t fg.genToEdge.length fg.relators hvt 0 hV.pos gens srels hst
+      exact ⟨f, hinj, hrange⟩
+    · intro hin hb
+      have := C14.abelian_invariants_eq_spec gens.length srels hin hb
+      rw [hinv] at this
+      exact (Outcome.ok.inj this).symm
+  · cases hinv
+  · cases hinv
+
+/-! ### 7. the two conclusions as predicates (used by Props/C17) -/
+
+/-- the conclusion of `ptc_result_is_cover` -/
+def CoverFacts (s cov : DSymData) : Prop :=
+  ∃ (oc : DSymData) (fg : FG.FundGroup) (t : Tab),
+    orientedCover s = .ok oc ∧ ValidTables oc ∧ oc.view.isOriented = true ∧ oc.dim = 3 ∧
+    oc.size = (if s.view.isOriented then 1 else 2) * s.size ∧
+    FG.fundamentalGroup oc = .ok fg ∧
+    SpecC11.validTable t fg.genToEdge.length fg.relators [] = true ∧
+    stabilizerInvariants fg.genToEdge.length fg.relators t = .ok [0, 0, 0] ∧
+    Covers.coverForTable oc (tableData (tbl fg.genToEdge.length t)) fg.edgeToWord = .ok cov ∧
+    cov.size = t.size * oc.size ∧ cov.dim = 3 ∧ ValidTables cov ∧
+    (∀ i d, i ≤ 3 → 1 ≤ d → d ≤ cov.size →
+      cproj oc.size (cov.dset.opU i d) = oc.dset.opU i (cproj oc.size d)) ∧
+    (∀ i d, i ≤ 3 → 1 ≤ d → d ≤ cov.size →
+      cproj s.size (cov.dset.opU i d) = s.dset.opU i (cproj s.size d))
+
+/-- the conclusion of `ptc_selected_subgroup_is_Z3_abelianised` -/
+def SubgroupFacts (s cov : DSymData) : Prop :=
+  ∃ (oc : DSymData) (fg : FG.FundGroup) (t : Tab)
+    (hv : SpecC11.validTable t fg.genToEdge.length fg.relators [] = true)
+    (gens srels : List (List Int)),
+    orientedCover s = .ok oc ∧ FG.fundamentalGroup oc = .ok fg ∧
+    Covers.coverForTable oc (tableData (tbl fg.genToEdge.length t)) fg.edgeToWord = .ok cov ∧
+    cov.size = t.size * oc.size ∧
+    Stab.stabilizer 0 fg.relators (Cosets.Table.ofView fg.genToEdge.length t) = .ok (gens, srels) ∧
+    Inv.abelianInvariants gens.length srels = .ok [0, 0, 0] ∧
+    ((MulAction.stabilizer (Equiv.Perm (Fin t.size))
+        (⟨0, (CosetP.valid_of_validTable hv).pos⟩ : Fin t.size)).comap
+      (CosetP.actionHom (CosetP.valid_of_validTable hv))).index = t.size ∧
+    (∃ f : PresentedGroup (CosetP.relSet gens.length srels) →*
+          PresentedGroup (CosetP.relSet fg.genToEdge.length fg.relators),
+      Function.Injective f ∧
+      f.range = (MulAction.stabilizer (Equiv.Perm (Fin t.size))
+          (⟨0, (CosetP.valid_of_validTable hv).pos⟩ : Fin t.size)).comap
+        (CosetP.actionHom (CosetP.valid_of_validTable hv))) ∧
+    ((∀ w ∈ srels, ∀ g ∈ w, Inv.InRange gens.length g) →
+      ((Inv.abelianInvariantsB gens.length srels).2 : Int) < Inv.isizeMax →
+      SpecC14.expected gens.length srels = [0, 0, 0])
+
+/-- both, for every returned cover -/
+theorem ptc_certificate (s cov : DSymData) (hs : ValidTables s) (hsz : 1 ≤ s.size)
+    (hG : ∀ oc fg, orientedCover s = .ok oc → FG.fundamentalGroup oc = .ok fg → GroupOK fg)
+    (h : pseudoToroidalCover s = .ok (some cov)) : CoverFacts s cov ∧ SubgroupFacts s cov :=
+  ⟨ptc_result_is_cover s cov hs hsz hG h, ptc_selected_subgroup_is_Z3_abelianised s cov hs hsz hG h⟩
 
 /-! ### open (not theorems): the statements, for the record -/
 
-/-- ○ `flattens_branchfree`: if a table that is a valid transitive permutation representation of
-    the fundamental group of an oriented symbol flattens all cones (`degree = v` for every cone
-    word), then `cover_for_table` has all branching numbers 1.  Evaluated per explored input by
-    the Spec clause `cover-is-branch-free`. -/
-def flattens_branchfree_statement : Prop :=
-  ∀ (oc c : DSymData) (fg : FG.FundGroup) (t : Table),
-    ValidTables oc → oc.view.isOriented = true → FG.fundamentalGroup oc = .ok fg →
-    (tableData t).InvConsistent → flattensAll t fg.cones = .ok true →
-    Covers.coverForTable oc (tableData t) fg.edgeToWord = .ok c →
-    ∀ i d, i < c.dim → 1 ≤ d → d ≤ c.size → c.vPartial i (i + 1) d = .ok (some 1)
+/-- the holonomy of every 2-orbit of the base has, at every sheet, exactly the order that makes
+    the cover unbranched: for the adjacent pair `(i, i+1)`, the sheet `k` and the base chamber `b`,
+    the least `t ≥ 1` at which the walk `(op_{i+1} ∘ op_i)^t` returns to `b` **and** the sheet map
+    applied along it (`hol`, Proofs/Delaney3dHolonomy.lean) returns to `k` is the degree
+    `m = r·v` of the base at `b` -/
+def HolonomyOrder (oc : DSymData) (n : Nat) (σ : Nat → Nat → Nat → Nat) : Prop :=
+  ∀ i k b, i < oc.dim → k < n → 1 ≤ b → b ≤ oc.size →
+    1 ≤ oc.mVal i b ∧
+    (IsPeriod oc.dset i (i + 1) (oc.mVal i b) b ∧ hol oc.dset σ i (i + 1) (oc.mVal i b) k b = k) ∧
+    ∀ t, 1 ≤ t → t < oc.mVal i b →
+      ¬ (IsPeriod oc.dset i (i + 1) t b ∧ hol oc.dset σ i (i + 1) t k b = k)
+
+/-- **flattens_branchfree_partial** (the cover side of ○ `flattens_branchfree`).  For the cover
+    `cov = cover_for_table(oc, t, edge_to_word)` of an oriented symbol with valid tables by a valid
+    table: walking `t` rounds of `op_{i+1} ∘ op_i` from the chamber `(k, b)` of the cover leads to
+    `(hol t k b, (op_{i+1} ∘ op_i)^t b)` (`cover_iter`), so the orbit of `(k, b)` has length
+    `r_base(b) · (order of the orbit's holonomy at sheet k)` and branching number
+    `m_base(b) / that length`.  Hence if the holonomy has `HolonomyOrder`, **every adjacent
+    branching number of the cover is 1**.
+    Not proved: that `flattens_all(t, cones)` implies `HolonomyOrder` — `flattens_all` tests the
+    order at row 0 only and on `relator_representative`s of the orbit words of the orbit
+    representatives only; the step needs normality of the candidate subgroup (order independent
+    of the row), invariance of the order under conjugation and inversion, and the relation
+    between the orbit words of all chambers of one orbit.  The Spec clause `cover-is-branch-free`
+    decides the conclusion on every explored case. -/
+theorem flattens_branchfree_partial (oc cov : DSymData) (fg : FG.FundGroup) (t : Tab)
+    (hvoc : ValidTables oc) (hori : oc.view.isOriented = true) (hsz : 1 ≤ oc.size) (hdim : 1 ≤ oc.dim)
+    (hfg : FG.fundamentalGroup oc = .ok fg)
+    (hvt : SpecC11.validTable t fg.genToEdge.length fg.relators [] = true)
+    (hcov : Covers.coverForTable oc (tableData (tbl fg.genToEdge.length t)) fg.edgeToWord = .ok cov)
+    (hH : HolonomyOrder oc t.size (Covers.sheetMap (tableData (tbl fg.genToEdge.length t)) fg.edgeToWord)) :
+    ∀ i d, i < oc.dim → 1 ≤ d → d ≤ cov.size → cov.vPartial i (i + 1) d = .ok (some 1) := by
+  have hV := CosetP.valid_of_validTable hvt
+  have hdef : Covers.allTracesDefined oc (tableData (tbl fg.genToEdge.length t)) fg.edgeToWord = true := by
+    have hc := hcov
+    unfold Covers.coverForTable at hc
+    split at hc
+    · assumption
+    · cases hc
+  have hσ := Covers.sheetMap_compat oc hvoc.set (tableData (tbl fg.genToEdge.length t)) fg.edgeToWord
+    (tableData_invConsistent hV) (edgeWordsOk_of_oriented hvoc hori hfg _) hdef
+  rw [tableData_len] at hσ
+  have hc : cover oc t.size (Covers.sheetMap (tableData (tbl fg.genToEdge.length t)) fg.edgeToWord) = .ok cov := by
+    rw [← hcov, Covers.coverForTable_eq_cover hdef, tableData_len]
+  obtain ⟨c', hc', hsize, _⟩ := cover_ok oc hvoc hsz hdim (show 1 ≤ t.size from hV.pos) hσ
+  rw [hc] at hc'
+  cases hc'
+  intro i d hi hd1 hd2
+  rw [hsize] at hd2
+  have hp := cproj_range (d := d) hsz
+  have hk := csheet_lt hsz hd1 hd2
+  obtain ⟨hm, hret, hmin⟩ := hH i (csheet oc.size d) (cproj oc.size d) hi hk hp.1 hp.2
+  exact cover_branch_one oc hvoc hsz hdim (show 1 ≤ t.size from hV.pos) hσ cov hc hi hd1 hd2 hm hret hmin
+
+/-- ○ `flattens_branchfree`, the open half: a candidate that flattens all cones has
+    `HolonomyOrder` (see `flattens_branchfree_partial`) -/
+def flattens_holonomy_statement : Prop :=
+  ∀ (oc : DSymData) (fg : FG.FundGroup) (cands : Candidates) (e : String × List Tab) (t : Tab),
+    ValidTables oc → oc.view.isOriented = true → FG.fundamentalGroup oc = .ok fg → GroupOK fg →
+    constructCandidates fg = .ok cands → e ∈ cands → t ∈ e.2 →
+    HolonomyOrder oc t.size (Covers.sheetMap (tableData (tbl fg.genToEdge.length t)) fg.edgeToWord)
 
 /-- ◐ existence and torus property (Spec clauses on every explored input):
     for every euclidean 2D symbol `toroidal_cover` returns; every returned (pseudo-)toroidal
